@@ -1,2 +1,175 @@
-import Spydr.Xform.ModelUniquify
-import Spydr.Xform.Spec
+/-
+  C08 — uniquify makes every non-leaf instance unique without changing the design.
+
+  Model: `uniquify : Nat → Design → UResult` (ModelUniquify.lean), fuel-bounded transcription of
+  spydrnet/uniquify.py (as repaired by docs/fixes/xform_uniquify_name_clash.diff).
+  Spec:  `WF`, `Unique`, `Acyclic`, `DefNamesUnique` (Spec.lean), `SameElab` (SpecElab.lean).
+
+  Hypotheses that appear below
+  * `WF d`                      decidable; evaluated by the driver on every dumped netlist;
+  * `Acyclic d`                 no definition instantiates itself transitively;
+  * `(uniquify fuel d).finished` the walk ran to completion with the given fuel (reported by the driver
+                                for every input; the harness treats `false` as a broken obligation);
+  * `(uniquify fuel d).ok`      the bounded search for a free name succeeded (reported by the driver;
+                                the search tries `ndefs + 1` counter values and at most `ndefs` names
+                                are taken, so it cannot fail — this pigeonhole fact is NOT proved
+                                here, it is checked on every run instead).
+-/
+import Spydr.Xform.LemmasUniqNames
+
+namespace Spydr.Xform
+
+/-- The netlist stays well-formed. -/
+theorem uniquify_wf (fuel : Nat) (d : Design) (hwf : WF d) (hok : (uniquify fuel d).ok = true) :
+    WF (uniquify fuel d).design :=
+  (uLoop_induct WFQ (fun _ _ _ _ _ _ inv h => inv.step h) fuel (uInit d) (WFQ.init hwf) hok).1
+
+/-- After uniquify every non-leaf instance reachable from the top instance is the only instance of
+    its definition (`Unique`: the reference set has exactly one member, counting every instance there
+    is — also instances in definitions outside the top hierarchy and instances outside every
+    definition). -/
+theorem uniquify_unique (fuel : Nat) (d : Design) (hwf : WF d) (hac : Acyclic d)
+    (hok : (uniquify fuel d).ok = true) (hfin : (uniquify fuel d).finished = true) :
+    Unique (uniquify fuel d).design := by
+  obtain ⟨rank, hr⟩ := hac
+  obtain ⟨Done, rank', inv⟩ := uLoop_inv fuel (uInit d) _ rank (UInv.init hwf hr) hok
+  have hq : (uLoop fuel (uInit d)).queue = [] := by simpa [uniquify] using hfin
+  rw [hq] at inv
+  exact inv.unique
+
+/-- The elaborated design is untouched: the unfolding tree (instance names, data and leaf cell type
+    at every path) and the connectivity between all hierarchical wires, hierarchical pins and
+    top-level port bits — in particular the grouping of leaf pins and top-level port bits into nets —
+    are exactly what they were.  (Holds for every prefix of the walk, hence no `finished`.) -/
+theorem uniquify_preserves_elab (fuel : Nat) (d : Design) (hwf : WF d) (hok : (uniquify fuel d).ok = true) :
+    SameElab d (uniquify fuel d).design := by
+  have := uLoop_induct (fun d' queue => WFQ d' queue ∧ SameElab d d')
+    (by
+      intro d1 q k rest d2 push ⟨inv, hs⟩ h
+      refine ⟨inv.step h, ?_⟩
+      have hq : q < d1.ndefs := inv.2 (q, k) List.mem_cons_self
+      rcases uStep_cases h with ⟨rfl, _, _⟩ | ⟨c, hc, ⟨rfl, _, _⟩ | ⟨_, hl, hm, _⟩⟩
+      · exact hs
+      · exact hs
+      · exact hs.trans (makeUnique_sameElab inv.1 hq hc hl hm))
+    fuel (uInit d) ⟨WFQ.init hwf, SameElab.refl d⟩ hok
+  exact this.2
+
+/-- Restriction of `uniquify_preserves_elab` to the sentence of the property: two endpoints (leaf pin
+    bits, top-level port bits) are connected after uniquify iff they were before; what is an
+    endpoint does not change either. -/
+theorem uniquify_preserves_nets (fuel : Nat) (d : Design) (hwf : WF d) (hok : (uniquify fuel d).ok = true)
+    (a b : HNode) :
+    (IsEndpoint d a ↔ IsEndpoint (uniquify fuel d).design a) ∧
+    (HConn d a b ↔ HConn (uniquify fuel d).design a b) := by
+  have h := uniquify_preserves_elab fuel d hwf hok
+  refine ⟨?_, h.2 a b⟩
+  cases a with
+  | wire => exact Iff.rfl
+  | tport => exact Iff.rfl
+  | pin p iid pi bit =>
+    have hu := h.1 p iid
+    simp only [unfoldAt] at hu
+    simp only [IsEndpoint]
+    constructor
+    · rintro ⟨c, hc, hl⟩
+      rw [hc] at hu
+      cases hc' : instAt (uniquify fuel d).design p iid with
+      | none => rw [hc'] at hu; cases hu
+      | some c' =>
+        rw [hc'] at hu
+        simp only [Option.map_some, Option.some.injEq, viewOf, InstView.mk.injEq, hl, if_true] at hu
+        refine ⟨c', rfl, ?_⟩
+        cases hx : ((uniquify fuel d).design.defs c'.ref).isLeaf with
+        | true => rfl
+        | false => simp [hx] at hu
+    · rintro ⟨c', hc', hl⟩
+      rw [hc'] at hu
+      cases hc : instAt d p iid with
+      | none => rw [hc] at hu; cases hu
+      | some c =>
+        rw [hc] at hu
+        simp only [Option.map_some, Option.some.injEq, viewOf, InstView.mk.injEq, hl, if_true] at hu
+        refine ⟨c, rfl, ?_⟩
+        cases hx : (d.defs c.ref).isLeaf with
+        | true => rfl
+        | false => simp [hx] at hu
+
+/-- Newly created definitions have fresh unique names in the original's library:
+    * definition names stay pairwise distinct inside every library (`DefNamesUnique`);
+    * `Grows`: old definitions keep name, library, ports and cables; every new definition `n` is a
+      copy (same library, ports, cables) of an earlier definition `x`, unnamed if `x` is unnamed and
+      otherwise named `name x ++ "_sdn_unique_" ++ k` with `k` between the counter before and after
+      the call; the relative order of the old definitions in every library is unchanged. -/
+theorem uniquify_fresh_names (fuel : Nat) (d : Design) (hwf : WF d) (hok : (uniquify fuel d).ok = true) :
+    (DefNamesUnique d → DefNamesUnique (uniquify fuel d).design) ∧ Grows d (uniquify fuel d).design := by
+  have := uLoop_induct (fun d' queue => WFQ d' queue ∧ (DefNamesUnique d → DefNamesUnique d') ∧ Grows d d')
+    (by
+      intro d1 q k rest d2 push ⟨inv, hnm, hg⟩ h
+      refine ⟨inv.step h, ?_⟩
+      have hq : q < d1.ndefs := inv.2 (q, k) List.mem_cons_self
+      rcases uStep_cases h with ⟨rfl, _, _⟩ | ⟨c, hc, ⟨rfl, _, _⟩ | ⟨_, hl, hm, _⟩⟩
+      · exact ⟨hnm, hg⟩
+      · exact ⟨hnm, hg⟩
+      · exact ⟨fun h0 => makeUnique_names hm (hnm h0), hg.trans (makeUnique_grows inv.1 hq hc hm)⟩)
+    fuel (uInit d) ⟨WFQ.init hwf, id, Grows.refl hwf.2.2.2.1⟩ hok
+  exact this.2
+
+/-- Each copy is inserted immediately behind its original in the original's library (one step of the
+    walk; `pre ++ x :: post` becomes `pre ++ x :: new :: post`, other libraries untouched).
+    The whole-run form ("in the final order every new definition sits behind its original with only
+    later copies in between") is checked by the harness oracle, not proved. -/
+theorem uniquify_step_position {d d' : Design} {q k : Nat} {c : Inst} (hwf : WF d) (hq : q < d.ndefs)
+    (hc : (d.defs q).children[k]? = some c) (h : makeUnique d q k c.ref = some d') :
+    ∃ l pre post, d.order[l]? = some (pre ++ c.ref :: post) ∧
+      d'.order[l]? = some (pre ++ c.ref :: d.ndefs :: post) ∧ (d.defs c.ref).lib = l ∧
+      (d'.defs d.ndefs).lib = l ∧ ∀ l', l' ≠ l → d'.order[l']? = d.order[l']? :=
+  makeUnique_position hwf hq hc h
+
+/-- Running uniquify again changes nothing (not even the name counter), whatever the fuel. -/
+theorem uniquify_idem (fuel : Nat) (d : Design) (hwf : WF d) (hac : Acyclic d)
+    (hok : (uniquify fuel d).ok = true) (hfin : (uniquify fuel d).finished = true) (fuel' : Nat) :
+    (uniquify fuel' (uniquify fuel d).design).design = (uniquify fuel d).design ∧
+    (uniquify fuel' (uniquify fuel d).design).ok = true := by
+  have hU := uniquify_unique fuel d hwf hac hok hfin
+  have := uLoop_fix hU fuel' (uInit (uniquify fuel d).design) rfl (by
+    intro a ha
+    rw [(mem_childAddrs.mp ha).1]
+    exact Reach.top)
+  exact ⟨this.1, this.2⟩
+
+/-! ### Non-vacuity: a concrete shared, two-level design satisfies the hypotheses, and the model
+    really copies on it. -/
+
+/-- leaf `0`; `1` = non-leaf cell with a port, a wire and a leaf child; top `2` instantiates `1`
+    twice and ties the two instances together. -/
+def exC08 : Design :=
+  { ndefs := 3
+    defs := fun i =>
+      if i = 0 then { lib := 0, name := some "leaf", eid := none, info := "", ports := [⟨1, ""⟩], cables := [], children := [] }
+      else if i = 1 then
+        { lib := 0, name := none, eid := none, info := "", ports := [⟨1, ""⟩],
+          cables := [{ id := 0, name := some "n", eid := none, info := "", wires := [[.port 0 0, .inst 0 0 0]] }],
+          children := [{ id := 0, name := some "u", eid := none, ref := 0, data := "" }] }
+      else if i = 2 then
+        { lib := 0, name := some "top", eid := none, info := "", ports := [],
+          cables := [{ id := 1, name := some "w", eid := none, info := "", wires := [[.inst 0 0 0, .inst 1 0 0]] }],
+          children := [{ id := 0, name := some "a", eid := none, ref := 1, data := "" },
+                       { id := 1, name := some "b", eid := none, ref := 1, data := "" }] }
+      else default
+    order := [[0, 1, 2]]
+    top := 2
+    extra := fun i => if i = 2 then 1 else 0
+    ctr := 0 }
+
+example : WF exC08 := by decide
+example : Acyclic exC08 := ⟨fun i => i, by decide⟩
+example : exC08.refCount 1 = 2 := by decide
+example : ¬ Unique exC08 := by
+  intro h
+  have := h 2 { id := 0, name := some "a", eid := none, ref := 1, data := "" } Reach.top (by decide)
+  revert this; decide
+example : (uniquify 10 exC08).finished = true ∧ (uniquify 10 exC08).ok = true ∧
+    (uniquify 10 exC08).design.ndefs = 4 ∧ (uniquify 10 exC08).design.order = [[0, 1, 3, 2]] := by decide
+
+end Spydr.Xform
